@@ -50,9 +50,10 @@ def ns_for(s, tier):
     if ns == {1}:
         return [1]
     heavy = max(ns) <= 3
-    extra = {4} if heavy else {4, 8}
-    if tier != 'quick' and not heavy:
-        extra |= {6, 7, 16}
+    # 12: a size whose loop counter n-1 has the top bit of its top hex set (signed tests on counters), 4/8/16: powers of two
+    extra = {4, 12} if heavy else {4, 8, 12}
+    if tier != 'quick':
+        extra |= {5, 9, 16} if heavy else {6, 7, 16}
     return sorted(ns | {n for n in extra if n >= min(ns)})
 
 
